@@ -18,10 +18,14 @@ R4  `state = EVALUATED` only after the objective call of the same attempt
 """
 import ast
 
-from ..astutil import text, access_path, calls_in, stmts_of
+from ..astutil import text, access_path, calls_in, stmts_of, fold, is_const, const_value
 from ..jobmodel import JobModel
 from ..loader import AnalysisError, where
 from ..paths import Enumerator
+
+
+def is_const_one(n):
+    return is_const(n) and const_value(n) == 1
 
 
 def handler_type_names(h):
@@ -48,7 +52,55 @@ def run(ctx):
     ctx.assume("loop unrolled to 1 and 2 attempts: the event-order automata of R1-R4 have at most 3 states, so longer failure sequences add no new behaviour")
 
     # ---------------------------------------------------------------- R1
-    if not isinstance(jm.loop, ast.For):
+    if isinstance(jm.loop, ast.While):
+        t = jm.loop.test
+        cnt = bound = None
+        if isinstance(t, ast.Compare) and len(t.ops) == 1 and isinstance(t.ops[0], (ast.Lt, ast.LtE)):
+            cnt = access_path(t.left)
+            try:
+                bound = fold(t.comparators[0]) + (1 if isinstance(t.ops[0], ast.LtE) else 0)
+            except ValueError:
+                bound = None
+        if cnt is None or bound is None:
+            ctx.inconclusive("R1", C, jm.where(jm.loop), "attempt loop `while %s` is not a recognised counter idiom" % text(t), key="bound")
+        elif "." in cnt or cnt not in {n.id for n in ast.walk(fn) if isinstance(n, ast.Name) and isinstance(n.ctx, ast.Store)}:
+            ctx.violated("R1", C, jm.where(jm.loop),
+                         "the attempt counter %s is not local to the call: the Job object is shared by all parallel workers, so the "
+                         "five-attempt budget is shared between designs instead of being per design" % cnt, key="bound")
+        else:
+            inits = [s_ for s_ in fn.body if isinstance(s_, ast.Assign) and any(access_path(x) == cnt for x in s_.targets)]
+            init_ok = len(inits) == 1 and fn.body.index(inits[0]) < fn.body.index(jm.loop)
+            try:
+                start = fold(inits[0].value) if init_ok else None
+            except ValueError:
+                start = None
+            bad_inc = None
+            for p in jm.paths:
+                incs = 0
+                for e in p.events:
+                    if e.kind == "iter" and e.node is jm.loop:
+                        incs = 0
+                    if e.kind == "stmt" and isinstance(e.node, ast.AugAssign) and access_path(e.node.target) == cnt:
+                        if isinstance(e.node.op, ast.Add) and is_const_one(e.node.value):
+                            incs += 1
+                        else:
+                            bad_inc = p
+                    if (e.kind == "continue" or (e.kind == "exit" and e.node is jm.loop)) and False:
+                        pass
+                # every completed iteration must have incremented exactly once
+                iters = [i for i, e in enumerate(p.events) if e.kind == "iter" and e.node is jm.loop]
+                for a, b in zip(iters, iters[1:] + [len(p.events)]):
+                    seg = p.events[a:b]
+                    n_inc = sum(1 for e in seg if e.kind == "stmt" and isinstance(e.node, ast.AugAssign) and access_path(e.node.target) == cnt)
+                    finished = any(e.kind in ("continue",) for e in seg) or b != len(p.events)
+                    if finished and n_inc != 1:
+                        bad_inc = p
+            if start is None or bad_inc is not None:
+                ctx.inconclusive("R1", C, jm.where(jm.loop), "counter %s is not initialised by a literal / not incremented exactly once per attempt" % cnt, key="bound")
+            else:
+                k = bound - start
+                ctx.check(k == 5, "R1", C, jm.where(jm.loop), "attempt loop runs at most %d times (property: at most five attempts per design)" % k, key="bound")
+    elif not isinstance(jm.loop, ast.For):
         ctx.inconclusive("R1", C, jm.where(), "attempt loop is not a `for ... in range(K)` statement", key="bound")
     else:
         k = jm.attempt_bound()
